@@ -81,6 +81,14 @@ def cases(r, tier):
         out.append(("long-body", long_body(n)))
     for n in ([100, 190, 210] if tier == "quick" else [100, 190, 198, 199, 200, 210, 400]):
         out.append(("many-globals", many_globals(n)))
+    # nesting of the EMITTED text: operator chains (inlined into one nested Lua expression) and if/elif chains (nested
+    # else-if blocks) around the Lua parsers' limit of 200 levels
+    for n in ([50, 150, 190, 197, 205, 400] if tier == "quick" else [50, 150, 190, 195, 197, 198, 199, 200, 201, 205, 400, 2000]):
+        out.append(("long-sum", HEADER + "start :: fn do\n  x :: %s\n  print(x)\nend\n" % " + ".join(["1"] * n)))
+        out.append(("long-concat", HEADER + "start :: fn do\n  x :: %s\n  print(x)\nend\n" % " + ".join(['"a"'] * n)))
+    for n in ([50, 150, 190, 205] if tier == "quick" else [50, 150, 190, 194, 195, 196, 200, 205, 400]):
+        out.append(("elif-chain", HEADER + "start :: fn do\n  v := 3\n  if v == 0 do\n    print(0)\n%s  else do\n    print(v)\n  end\nend\n"
+                    % "".join("  elif v == %d do\n    print(%d)\n" % (i, i) for i in range(1, n))))
     # minus signs: a Lua `--` starts a comment, so every way of putting a minus in front of something that may itself
     # print with a leading minus (negative literals after any folding, nested negations, subtraction of a negation)
     atoms = ["1", "0", "5", "2.5", "x"]
